@@ -69,6 +69,22 @@ def open_scenarios(case, d):
             a.metadata.accessmode = 'r+'
             a.accessmode = 'r'
             attempts(a, path)
+        elif kind in ('exc_exit', 'gen_break'):
+            # a read-only handle opened for WRITING only temporarily: the block is left through an exception /
+            # the generator is abandoned after a break; afterwards the handle is read-only again
+            a = darr.asarray(path, np.arange(int(np.prod(shape)), dtype='int32').reshape(shape), accessmode='r')
+            if kind == 'exc_exit':
+                try:
+                    with a.open_array(accessmode='r+'):
+                        a[len(a) + 7]            # IndexError inside the block
+                except IndexError:
+                    pass
+            else:
+                for ch in a.iterchunks(2, accessmode='r+'):
+                    break
+                import gc
+                gc.collect()
+            attempts(a, path)
         elif kind == 'rmeta_mode':
             # RaggedArray: the handle already says 'r', the metadata object's own mode was changed; assigning
             # 'r' AGAIN must govern the metadata and both subarrays
